@@ -3,10 +3,10 @@
 import json, sys, subprocess
 
 CLAIMED = {
- "C01": ("CP1 CP3 CP6 CP9 CP10 CP12 TK2; supporting HS2 HS3 HS5 HE1 GL1-GL4", "edge-dominance + exhaustive CFG path search + backward slicing over go/ssa (run loop cache events)",
+ "C01": ("CP1 CP3 CP6 CP9 CP10 CP12 TK2; supporting HS2 HS3 HS5 HS6 HS7 HE1 GL1-GL4", "edge-dominance + exhaustive CFG path search + backward slicing over go/ssa (run loop cache events)",
          "structural necessary conditions on every path of the run loop: skip only under digest equality with the loaded cache entry of the same task; no path from a successful run leaves a stale digest on disk; every declared file input reaches the hasher (and every string dependency of the syntax tree reaches one of the two input fields); the old digest is never re-instated after a success; the cache persists exactly its own map; glob expansion precedes the loop; (supporting, shared with C04/C05/C18) the digest covers every listed file's whole content and path, a hashing error stops the run, glob expansion records every non-hidden match under the spokfile directory",
          "not covered: change-sensitivity of the digest (C04), correctness of glob expansion (C05), races between hashing and running. Trusted: go/ssa + VTA of x/tools v0.29.0, encoding/json and os.WriteFile contracts, the effect-based recognition of the cache API"),
- "C02": ("CP2 CP3L CP5 CP11 AB1 AB2; supporting HS1 HS2 HS5 GL3 TK5", "control-dependence + backward slice non-interference analysis and must-pass-through path search over go/ssa",
+ "C02": ("CP2 CP3L CP5 CP11 AB1 AB2; supporting HS1 HS2 HS5 HS7 GL3 TK5", "control-dependence + backward slice non-interference analysis and must-pass-through path search over go/ssa",
          "no decision of one loop iteration (run, skip, record, persist) reads loop-carried state of other tasks; every successful run is recorded and persisted on all paths; an empty input list can never be skipped; the project root is absolute and derives from the discovered spokfile; (supporting, shared with C04/C05) the digest is independent of arrival order and of anything but path and content, the expansion root/pattern are the same on every run, a string is a glob exactly when it contains '*'",
          "not covered: that equal inputs give equal digests (C04) and the value-level outcome of the comparison. Same trusted base as C01"),
  "C03": ("GR1-GR8 ST7 TK1", "call-graph cycle / work-list detection, argument slicing, edge-dominance and per-iteration path enumeration over go/ssa",
@@ -15,16 +15,16 @@ CLAIMED = {
  "C04": ("HS1-HS5", "goroutine-topology recovery (alias propagation through closures/parameters), dominance of the sort over every consumer, origin tracing, path enumeration and interval evaluation over go/ssa",
          "the only arrival-ordered slice reaching the digest is sorted with a whole-element comparator before use; each item is sha256 of the whole file opened on the job path plus that unchanged path; items are never folded arithmetically; one item per non-directory job; every element of the list becomes a job; at least one worker for a non-empty list",
          "not covered: injectivity of hash||path framing, SHA-256 collisions, duplicate paths (value-level)"),
- "C05": ("GL1-GL4 TK2 TK5 AB2", "edge-dominance and path enumeration in the GlobWalk callback + interprocedural slicing of fsys/pattern/keys over go/ssa",
+ "C05": ("GL1-GL4 TK2 TK5 AB2; supporting HS7", "edge-dominance and path enumeration in the GlobWalk callback + interprocedural slicing of fsys/pattern/keys over go/ssa",
          "the GlobWalk callback never returns SkipDir/SkipAll; exactly one append per non-hidden nil return; walked FS is os.DirFS(SpokFile.Dir), pattern unchanged, Globs keyed by the expanded pattern; nothing but loop/err/already-expanded(miss, non-empty hit) guards the expansion",
          "not covered: the doublestar matcher, the exact hidden-name predicate, symlinks"),
  "C08": ("PR1-PR5 LX1 LX2 FM6; supporting TL3 TL4", "typed-syntax-tree object identity checks + lexer state-function graph reachability + loop progress path search",
          "every ERROR arm reports the tested token's own Value; every illegalToken quotes the line of the token it cites; the scan ends only via an ERROR token or emit(EOF); a task body cannot reach EOF without RBRACE or error; every parser token loop advances and leaves on ERROR; no line scanner with an unconsulted Err() in lexer/parser/ast. Decides these clauses only, not totality/no-panic over all byte strings",
          "not covered: absence of panics and cursor arithmetic over all inputs (declined, value-level); line numbers within range"),
- "C09": ("SH1 SH2 RT1 RT2 RT3 RT4 GR6 CP8; supporting CP1 CP10", "error-flow discipline check (non-nil edge must end in non-nil error returns) along the whole call chain + loop/guard shape analysis over go/ssa",
+ "C09": ("SH1 SH2 RT1 RT2 RT3 RT4 GR6 CP8; supporting CP1 CP10 HS6", "error-flow discipline check (non-nil edge must end in non-nil error returns) along the whole call chain + loop/guard shape analysis over go/ssa",
          "the interpreter runs with errexit and its exit status reaches Result.Status or the returned error; Ok() methods are Status==0 / conjunctions; every caller of SpokFile.Run examines every result unconditionally and fails on the first not-Ok; errors propagate on every call edge to Runner.Run; main reports on real stderr and exits non-zero; digests recorded only under Ok(); (supporting, shared with C01) a skip requires digest equality and the old digest is only re-instated after a failure",
          "not covered: exit-status computation inside mvdan.cc/sh; flag validation inside the CLI library"),
- "C10": ("CP4 CP7 CP8 CP12", "ordering (must-precede) analysis on the intra-iteration CFG + error-edge discipline check over go/ssa",
+ "C10": ("CP4 CP7 CP8 CP12; supporting HS6", "ordering (must-precede) analysis on the intra-iteration CFG + error-edge discipline check over go/ssa",
          "crash points are covered by ordering constraints that hold on every CFG path: the recorded digest is invalidated and persisted before the commands start, a new digest is recorded only under Ok() of those commands, and a cache file that cannot be read/decoded always ends in an error",
          "not covered: atomicity of os.WriteFile beyond 'a torn JSON document does not decode' (encoding/json contract), kill during first-time cache.Init"),
  "C12": ("CL1-CL4 CL6 CL7 TK3 GL2; supporting GL1 GL3 TK5 AB2 FD4", "effect inventory with interprocedural entry conditions (greatest fixpoint) + provenance slicing of every removal argument + containment-guard search over go/ssa",
@@ -33,7 +33,7 @@ CLAIMED = {
  "C13": ("EN1-EN6 TK4 PS1", "data-flow chain verification by backward slicing with object flow (templates, buffers) over go/ssa",
          "os.Environ() precedes the spokfile variables in the list given to expand.ListEnviron (last duplicate wins); the Vars -> KEY=VALUE -> Task.Run -> Runner.Run -> interp.Env chain is unbroken; Task.Commands is text/template output over the AST command text with the variables map; variables are filed under their identifier and builtin errors propagate; one Task.Commands element per command, never re-cut from expanded text; a string literal is its token text minus the quotes; the environment list is not re-ordered",
          "not covered: value semantics of join/exec and of text/template; shell quoting"),
- "C14": ("CP1f CP3f CP10; supporting CP1 CP3L CP6 GL4 CP12", "edge-dominance of force==false over every skip + force-restricted CFG path search over go/ssa",
+ "C14": ("CP1f CP3f CP10; supporting CP1 CP3L CP6 GL4 CP12 HS6", "edge-dominance of force==false over every skip + force-restricted CFG path search over go/ssa",
          "no 'skipped' store is reachable with force set; on the force==true paths a successful run never leaves a stale digest on disk; the force parameter is fed from Options.Force; (supporting, shared with C01/C05) the digest a forced run records is the digest of this iteration's inputs, computed over all inputs with globs expanded",
          "not covered: flag parsing inside the CLI library"),
  "C15": ("FM1-FM7; supporting FX2 ST9", "may-be-empty string analysis of every String() return + edge-dominance of the docstring guard + per-iteration path enumeration over go/ssa",
@@ -48,7 +48,7 @@ CLAIMED = {
  "C18": ("CC1-CC10 HE1", "concurrency-shape analysis: channel/WaitGroup alias propagation, nil-dereference-after-error check, send-on-all-paths search, close/Wait ordering, drain-loop exits, shared-memory ownership, interval bound",
          "shape conditions that are sufficient (argument in the evidence) for crash-, deadlock-, leak- and race-freedom of the producer/jobs/workers/results/collector topology under every schedule; any other topology makes the check undecided; every caller of Hash stops on its error",
          "trusted: Go memory model for channels/WaitGroup; os.Open/Stat nil-with-error contract. Not covered: panics inside the standard library, a read that blocks forever"),
- "C19": ("FX1 FX2 FX3 FX4 FX6 CL1 CL3 CL4; supporting AB1 AB2 FD4 GR5 EN4", "effect analysis: frozen effect tables + call-site inventory + interprocedural entry conditions + path-root provenance slicing over go/ssa/VTA",
+ "C19": ("FX1 FX2 FX3 FX4 FX6 CL1 CL3 CL4; supporting AB1 AB2 FD4 GR5 EN4 EN3", "effect analysis: frozen effect tables + call-site inventory + interprocedural entry conditions + path-root provenance slicing over go/ssa/VTA",
          "every file-mutating primitive call of the module is either under an explicit action flag or rooted in <SpokFile.Dir>/<cache>; the --fmt write targets Options.Spokfile with Tree.String() after Parse and file.New succeeded; --init is guarded by an existence test of the same path and appends to .gitignore; listing branches reach no mutation; the logger has no file sink; (supporting, shared with C02/C17/C03/C13) the cache directory's root is the discovered spokfile's directory, and file.New fails on duplicate tasks and failing builtins so that --fmt never rewrites a spokfile that does not load",
          "trusted: the effect tables of DESIGN.md appendix B (an unlisted external callee makes the check undecided). Not covered: effects of user commands / exec builtins (excluded by the property)"),
  "C20": ("ST1-ST10 GR6 RT4; supporting GR8 EN3 TK4", "effect inventory of stdout writers with entry conditions + dominance of the stream silencing + buffer/stream pairing by origin tracing + sorted-before-write dominance over go/ssa",
